@@ -60,7 +60,13 @@ class Gen:
         r = self.rng
         if r.random() < 0.7:
             return r.choice(KEY_WORDS)
-        return r.choice(ALPHA + ALPHA.upper() + '_') + ''.join(r.choice(ALPHA + ALPHA.upper() + '0123456789_') for _ in range(r.randint(1, 6)))
+        while True:
+            k = r.choice(ALPHA + ALPHA.upper() + '_') + ''.join(r.choice(ALPHA + ALPHA.upper() + '0123456789_') for _ in range(r.randint(1, 6)))
+            # a key made of underscores only has an EMPTY camel/Pascal form: Go then prints a struct field without a name and Swift a case
+            # without a name (ill-formed output - C10's subject, outside its identifier domain; before /repo fix eec6b54 these panicked);
+            # the json tag / CodingKey still carries the key, so C02 has nothing to judge there and the text cannot be read back
+            if k.strip('_'):
+                return k
 
     def rename(self):
         r = self.rng
